@@ -31,6 +31,21 @@ ROOT = "/srv/vsim"
 API_OUT = ROOT + "/out/api/unused.pyi"
 
 
+def map_key(p):
+  """Imports-map key of a program: `pkg` (a package) -> pkg/__init__,
+  `pkg.sub` -> pkg/sub."""
+  k = p["module"].replace(".", "/")
+  return k + "/__init__" if p.get("is_pkg") else k
+
+
+def analysis_name(p):
+  return p["module"] + ".__init__" if p.get("is_pkg") else p["module"]
+
+
+def src_file(pid, p):
+  return ROOT + "/src/%s/%s.py" % (pid, map_key(p))
+
+
 class FakeClock:
 
   def __init__(self, start):
@@ -98,7 +113,8 @@ def main():
   fs.makedirs(ROOT + "/out")
   programs = job["programs"]
   for pid, p in programs.items():
-    fs.put(ROOT + "/src/%s/%s.py" % (pid, p["module"]), p["src"])
+    if "src" in p:
+      fs.put(src_file(pid, p), p["src"])
   fs.put(ROOT + "/dummy.py", "")
   fs.makedirs(os.path.dirname(API_OUT))
   stamp()
@@ -124,23 +140,32 @@ def main():
     # different content) take turns at the same path, like a file that is
     # edited while a long-lived process keeps analysing
     p = programs[pid]
-    return ROOT + "/out/deps_%s/%s%s" % (form, p["module"],
+    if "stub_text" in p:
+      form = "text"     # a hand-written stub has no pickled form
+    return ROOT + "/out/deps_%s/%s%s" % (form, map_key(p),
                                          ".pyi" if form == "text" else ".pickled")
 
   def ensure_dep(pid, form, opts_extra):
     p = programs[pid]
     out = dep_path(pid, form)
     key = (pid, form)
+    if key not in dep_bytes and "stub_text" in p:
+      # a stub somebody wrote by hand (third-party stub): stored as it is
+      fs.makedirs(os.path.dirname(out))
+      fs.put(out, p["stub_text"])
+      dep_bytes[key] = p["stub_text"].encode("utf8")
+      occupant[out] = pid
+      stamp()
     if key not in dep_bytes:
       fs.makedirs(os.path.dirname(out))
       items = []
       for d in p.get("deps", []):
-        items.append((programs[d]["module"], ensure_dep(d, form, opts_extra)))
+        items.append((map_key(programs[d]), ensure_dep(d, form, opts_extra)))
       extra = {"quick": True}
       if form == "pickle":
         extra["use_pickled_files"] = True
       r = anacore.run_step(
-          fs, ROOT + "/src/%s/%s.py" % (pid, p["module"]), module_name=p["module"],
+          fs, src_file(pid, p), module_name=analysis_name(p),
           output=out, pickle=(form == "pickle"), imports_map_items=items,
           pythonpath="", report_errors=False, extra=extra)
       probes["deps_built"] += 1
@@ -190,12 +215,12 @@ def main():
       return
 
     p = programs[req["prog"]]
-    src_path = ROOT + "/src/%s/%s.py" % (req["prog"], p["module"])
+    src_path = src_file(req["prog"], p)
     form = req.get("dep_form", "text")
     opts_extra = dict(req.get("opts", {}))
     for d in p.get("deps", []):
       ensure_dep(d, form, opts_extra)      # builds (may shuffle occupants)
-    items = [(programs[d]["module"], ensure_dep(d, form, opts_extra))
+    items = [(map_key(programs[d]), ensure_dep(d, form, opts_extra))
              for d in p.get("deps", [])]   # direct deps occupy their paths
     if form == "pickle":
       opts_extra["use_pickled_files"] = True
@@ -232,7 +257,7 @@ def main():
       ent = loaders.get(lkey)
       if ent is None:
         with anacore.installed(fs):
-          o = anacore.make_options(fs, src_path, module_name=p["module"],
+          o = anacore.make_options(fs, src_path, module_name=analysis_name(p),
                                    nofail=True, imports_map_items=items,
                                    pythonpath="", output=API_OUT, **opts_extra)
           ent = loaders[lkey] = (m["load_pytd"].create_loader(o), o)
@@ -274,7 +299,7 @@ def main():
                  "stderr": None}
             ret.context.program = None
       else:
-        r = anacore.run_step(fs, src_path, module_name=p["module"],
+        r = anacore.run_step(fs, src_path, module_name=analysis_name(p),
                              imports_map_items=items, pythonpath="",
                              extra=opts_extra, csv=True, output=API_OUT,
                              api=True)
@@ -283,7 +308,7 @@ def main():
       out = ROOT + "/out/r%d/%s%s" % (ri, p["module"],
                                    ".pyi" if out_kind == "pyi" else ".pickled")
       fs.makedirs(os.path.dirname(out))
-      r = anacore.run_step(fs, src_path, module_name=p["module"], output=out,
+      r = anacore.run_step(fs, src_path, module_name=analysis_name(p), output=out,
                            pickle=(out_kind == "pickle"),
                            imports_map_items=items, pythonpath="",
                            extra=opts_extra, csv=True)
